@@ -137,6 +137,16 @@ func (x *Exec) callAsserts(fr *Frame, st *State, key string, ord int, fn *ssa.Fu
 				}
 			}
 		}
+		if fn != nil && len(fn.Params) == 0 {
+			if ict := x.prog.cs.Funcs[key]; ict != nil {
+				off := len(ict.Params) - len(args)
+				for i, a := range args {
+					if off >= 0 && off+i < len(ict.Params) {
+						ev.bind["ARG_"+ict.Params[off+i]] = a
+					}
+				}
+			}
+		}
 		if fn != nil {
 			ps := fn.Params
 			for i, p := range ps {
